@@ -93,6 +93,16 @@ func (c *Ctx) heapInitE(name, epoch string) *Term {
 	if !c.declared["heap:"+name+"@"+epoch] {
 		c.declared["heap:"+name+"@"+epoch] = true
 		c.decls = append(c.decls, fmt.Sprintf("(declare-const %s %s)", sym, s))
+		if strings.HasPrefix(name, "M!") && strings.HasPrefix(string(s), "(Array Int ") {
+			// the nil map has no keys and length 0 in every state (a write to a nil map panics)
+			inner := strings.TrimSuffix(strings.TrimPrefix(string(s), "(Array Int "), ")")
+			if strings.HasSuffix(name, "!dom") && strings.HasSuffix(inner, " Bool)") {
+				c.decls = append(c.decls, fmt.Sprintf("(assert (= (select %s 0) ((as const %s) false)))", sym, inner))
+			}
+			if strings.HasSuffix(name, "!len") && inner == "Int" {
+				c.decls = append(c.decls, fmt.Sprintf("(assert (= (select %s 0) 0))", sym))
+			}
+		}
 		if (name == "MW!is" || name == "TEE!is") && epoch == "0" {
 			// A-IO-WRITERS: at function entry no object is a model-level MultiWriter / TeeReader - a writer or reader
 			// received from the caller is an opaque sink / source with its own ghost sequence
